@@ -14,8 +14,12 @@ out.append('''Every change below was produced by a fresh sub-agent that was give
 scratch worktree of `/repo` (nothing from `/verif`); each compiles, passes the pinned unit suite, and was demonstrated
 by its author against a clean and a patched gateway. They are kept as `/verif/seeded/<id>/{patch.diff, demonstration.md,
 meta.json}` and applied with `git -C /repo apply`; `tools/seedrun.sh <patch> <ID>...` applies one, runs the quick tier of
-the named checks and restores the tree; `tools/seedmatrix.sh` runs them all and writes `seeded/matrix.tsv`. Round 1 = ids
-ending in a / b, round 2 (authors were told what round 1 had tried and asked for something different) = c / d.
+the named checks and restores the tree; `tools/seedmatrix.sh` runs them all and writes `seeded/matrix.tsv`
+(`tools/seedrun_wt.sh` / `tools/seedmatrix_par.sh` do the same on scratch worktrees through `VERIF_REPO`, leaving `/repo`
+alone). Round 1 = ids ending in a / b, round 2 (authors were told what round 1 had tried and asked for something
+different) = c / d, round 3 = e / f and round 4 = g / h (each told everything tried before, asked for subtler changes in
+places nobody had touched; rounds 3 and 4 were written against the repaired tree). Patches whose context later repairs
+moved were re-created on the repaired tree (`patch.orig.diff` = as delivered).
 
 "first run" is the verdict of the property's own quick check as it stood when the seed arrived; where that was a miss the
 check was strengthened (never by looking at anything but the demonstration's *class* of input) and the row says how. The
